@@ -59,7 +59,7 @@ def c_elem(e) -> str:
             f"{opt(e['spatial'])} {opt(e['temporal'])}")
 
 
-HDR = ("From Coq Require Import String List Bool.\n"
+HDR = ("From Coq Require Import String List Bool NArith.\n"
        "From V Require Import Model.Universe Model.Group Model.GroupCheck Gen.Universes.\n"
        "Import ListNotations.\n")
 
@@ -263,10 +263,10 @@ def corpus_subsets():
 def check_universe(ctx: Ctx, ident: str, res, cases_univ):
     """(a) construction: model build vs real universe"""
     if "universe_error" in res:
-        cases_univ.append((f"({ident}, None)", {"universe": ident, "error": res["universe_error"]}))
+        cases_univ.append((f"(raw_{ident}, None)", {"universe": ident, "error": res["universe_error"]}))
         return None
     desc = res["universe"]
-    cases_univ.append((f"({ident}, Some {clist(c_elem(e) for e in desc)})", {"universe": ident, "n": len(desc)}))
+    cases_univ.append((f"(raw_{ident}, Some {clist(c_elem(e) for e in desc)})", {"universe": ident, "n": len(desc)}))
     ctx.count(len(desc))
     ctx.hist("universe_elements", ident, len(desc))
     # statement-level sanity of the universe order itself: dependencies precede dependents
@@ -283,52 +283,51 @@ def check_universe(ctx: Ctx, ident: str, res, cases_univ):
     return Spec(desc)
 
 
-def run_universe(ctx: Ctx, ident: str, uvar: str, results: list, cases_univ, tier_pairs="all"):
+class Acc:
+    """cases of all universes, evaluated together so that the shards run in parallel"""
+
+    def __init__(self):
+        self.names = set()
+        self.g, self.c, self.p, self.u = [], [], [], []     # (render(N) -> str, meta)
+
+
+def run_universe(ctx: Ctx, ident: str, uvar: str, results: list, acc: Acc):
     """results: worker outputs for this universe (the first carries groups, all may carry pairs)"""
     res0 = results[0]
+    cases_univ = []
     sp = check_universe(ctx, ident, res0, cases_univ)
+    acc.u.extend(cases_univ)
     if sp is None:
         return
-    N = Names(sp.order)
-    gcases, gmeta = [], []
+    acc.names.update(sp.order)
+    dom = {n for n, k in sp.kind.items() if k != "combination"}      # the property speaks about dimension names
     for o in res0["groups"]:
         ctx.count()
+        in_domain = all(n in dom for n in o["in"])
         if o.get("err"):
             ctx.hist("group_outcome", o["err"])
-            if all(n in sp.req for n in o["in"]):
+            if in_domain:
                 ctx.oracle_fail(f"conform:raised:{o['err']}", {"universe": ident, "in": o["in"], "error": o["err"]},
                                 "constructing a group from valid dimension names raised")
         else:
-            ctx.hist("group_outcome", "ok")
+            ctx.hist("group_outcome", "ok" if in_domain else "ok (input names a join table: outside the property's domain, model compared only)")
             ctx.hist("group_size", len(o["names"]))
-            oracle_group(ctx, sp, ident, o)
-            if len(o["names"]) > len(set(o["in"])) or o["implied"]:
-                ctx.nontrivial({"u": ident, "in": sorted(set(o["in"]))})
-        gcases.append(f"({N.lst(o['in'])}, {c_gobs(N, o)})")
-        gmeta.append({"universe": ident, "in": o["in"], "observed": {k: o.get(k) for k in ("err", "names", "required", "implied", "lookup")}})
-    ccases, cmeta = [], []
+            if in_domain:
+                oracle_group(ctx, sp, ident, o)
+                if len(o["names"]) > len(set(o["in"])) or o["implied"]:
+                    ctx.nontrivial({"u": ident, "in": sorted(set(o["in"]))})
+        acc.g.append((lambda N, o=o: f"({uvar}, {N.lst(o['in'])}, {c_gobs(N, o)})",
+                      {"universe": ident, "in": o["in"], "observed": {k: o.get(k) for k in ("err", "names", "required", "implied", "lookup")}}))
     for o in res0.get("conform", []):
         ctx.count()
         if not o.get("err"):
             oracle_group(ctx, sp, ident, dict(o, spell=[] if o.get("same_as_minimal", True) else ["minimal_group"]), kind="conform-str")
-            # conform("x") must contain x's dependencies: it is the least group holding required+implied of x
+            # conform("x") is the least group holding x's own dimensions
             want = sp.lfp(frozenset(sp.req[o["in"]] + sp.imp[o["in"]] + ([o["in"]] if sp.kind[o["in"]] != "combination" else [])))
             if frozenset(o["names"]) != want:
                 ctx.oracle_fail("conform-str", {"universe": ident, "in": o["in"], "names": o["names"]},
                                 "conform(name) is not the smallest group containing the element's dimensions")
-        ccases.append(f"({N(o['in'])}, {c_gobs(N, o)})")
-        cmeta.append({"universe": ident, "conform": o["in"]})
-    hdr = HDR + N.header()
-    for name, cases, meta, chk in ((f"groups_{ident}", gcases, gmeta, f"chk_group {uvar}"),
-                                  (f"conform_{ident}", ccases, cmeta, f"chk_conform {uvar}")):
-        if not cases:
-            continue
-        bad = ctx.coq_cases(name, hdr, cases, chk, shard=700)
-        for i in (bad or [])[:5]:
-            ctx.disagreement(name, meta[i], "model group differs from DimensionGroup")
-    if res0["groups"]:
-        ctx.sample({"group_case": gmeta[len(gmeta) // 2], "coq": gcases[len(gcases) // 2][:400]})
-    # pairs
+        acc.c.append((lambda N, o=o: f"({uvar}, {N(o['in'])}, {c_gobs(N, o)})", {"universe": ident, "conform": o["in"]}))
     for res in results:
         if "universe_error" in res or not res.get("pairs"):
             continue
@@ -338,22 +337,33 @@ def run_universe(ctx: Ctx, ident: str, uvar: str, results: list, cases_univ, tie
             A, B = set(tbl[i]), set(tbl[j])
             if not (A <= B or B <= A):
                 ctx.nontrivial({"u": ident, "a": tbl[i], "b": tbl[j]})
-        n0 = res["n_primary"]
-        phdr = (hdr + f"Definition tbl : list (list string) := [\n  " + ";\n  ".join(N.lst(t) for t in tbl) + "].\n"
-                + f"Definition gt : list (gres group) := Eval vm_compute in map (mkgroup {uvar}) (firstn {n0} tbl).\n")
-        pcases = [f"({i}, {j}, ({ui}, {ii}, {clist(cbool(x) for x in (le, eq, heq, dj))}))"
-                  for i, j, ui, ii, le, eq, heq, dj in res["pairs"]]
-        name = f"pairs_{ident}_{res.get('slice', 0)}"
-        bad = ctx.coq_cases(name, phdr, pcases, f"chk_pair {uvar} gt tbl", shard=9000)
+        for r in res["pairs"]:
+            acc.p.append((lambda N, r=r, tbl=tbl: f"({uvar}, {N.lst(tbl[r[0]])}, {N.lst(tbl[r[1]])}, ({N.lst(tbl[r[2]])}, {N.lst(tbl[r[3]])}, {clist(cbool(x) for x in r[4:])}))",
+                          (ident, tbl, r)))
+        ctx.hist("pairs", ident, len(res["pairs"]))
+
+
+def evaluate_model(ctx: Ctx, acc: Acc):
+    N = Names(acc.names)
+    hdr = HDR + N.header()
+    for name, items, chk, shard in (("universes", acc.u, "chk_universe", 1), ("groups", acc.g, "chk_group", 900),
+                                    ("conform", acc.c, "chk_conform", 200), ("pairs", acc.p, "chk_pair", 6000)):
+        if not items:
+            continue
+        cases = [c if isinstance(c, str) else c(N) for c, _ in items]
+        bad = ctx.coq_cases(name, HDR if name == "universes" else hdr, cases, chk, shard=shard)
         for i in (bad or [])[:5]:
-            r = res["pairs"][i]
-            ctx.disagreement(name, {"universe": ident, "a": tbl[r[0]], "b": tbl[r[1]], "union": tbl[r[2]], "inter": tbl[r[3]], "flags": r[4:]},
-                             "model | & <= == hash isdisjoint differs from DimensionGroup")
-        ctx.hist("pairs", ident, len(pcases))
-    if results and results[-1].get("pairs"):
-        r = results[-1]["pairs"][len(results[-1]["pairs"]) // 3]
-        ctx.sample({"pair_case": {"a": results[-1]["table"][r[0]], "b": results[-1]["table"][r[1]],
-                                  "a|b": results[-1]["table"][r[2]], "a&b": results[-1]["table"][r[3]], "le,eq,hash,disjoint": r[4:]}})
+            meta = items[i][1]
+            if name == "pairs":
+                ident, tbl, r = meta
+                meta = {"universe": ident, "a": tbl[r[0]], "b": tbl[r[1]], "union": tbl[r[2]], "inter": tbl[r[3]], "le,eq,hash,disjoint": r[4:]}
+            ctx.disagreement(name, meta, "the model differs from the implementation on this case")
+        k = len(cases) // 2
+        meta = items[k][1]
+        if name == "pairs":
+            ident, tbl, r = meta
+            meta = {"universe": ident, "a": tbl[r[0]], "b": tbl[r[1]], "a|b": tbl[r[2]], "a&b": tbl[r[3]], "le,eq,hash,disjoint": r[4:]}
+        ctx.sample({name: meta, "coq": cases[k][:400]})
 
 
 def payloads_for(ctx: Ctx, ident: str, path: Path, *, exhaustive: bool, nrandom: int, pairs, triples: int, slices: int,
@@ -429,7 +439,7 @@ def _main(ctx: Ctx, srcs, quick: bool, model: bool = True):
     ctx.log(f"running {len(flat)} implementation workers")
     outs = parallel_workers("c12_impl", "observe", flat, timeout=900)
     k = 0
-    cases_univ = []
+    acc = Acc()
     for ident, uvar, pl in jobs:
         results = []
         for p in pl:
@@ -447,14 +457,11 @@ def _main(ctx: Ctx, srcs, quick: bool, model: bool = True):
         if not results:
             continue
         if model:
-            run_universe(ctx, ident, uvar, results, cases_univ)
+            run_universe(ctx, ident, uvar, results, acc)
         else:
             _oracle_only(ctx, ident, results)
-    if model and cases_univ:
-        bad = ctx.coq_cases("universes", HDR, [c for c, _ in cases_univ], "chk_universe", shard=1)
-        for i in (bad or [])[:5]:
-            ctx.disagreement("universes", cases_univ[i][1], "model of universe construction differs from the real DimensionUniverse")
-        ctx.sample({"universe_case": cases_univ[0][1], "coq": cases_univ[0][0][:300]})
+    if model:
+        evaluate_model(ctx, acc)
 
 
 def _oracle_only(ctx: Ctx, ident, results):
@@ -462,8 +469,11 @@ def _oracle_only(ctx: Ctx, ident, results):
     if "universe_error" in res0:
         return
     sp = Spec(res0["universe"])
+    dom = {n for n, k in sp.kind.items() if k != "combination"}
     for o in res0["groups"]:
         ctx.count()
+        if not all(n in dom for n in o["in"]):
+            continue
         if not o.get("err"):
             oracle_group(ctx, sp, ident, o)
         elif all(n in sp.req for n in o["in"]):
@@ -491,4 +501,6 @@ def _replay(ctx: Ctx, srcs):
         ctx.tie_broken("harness", "replay-worker", str(r)[-800:])
         return
     r["slice"] = 0
-    run_universe(ctx, ident, f"u_{ident}", [r], [])
+    acc = Acc()
+    run_universe(ctx, ident, f"u_{ident}", [r], acc)
+    evaluate_model(ctx, acc)
